@@ -73,9 +73,10 @@ Qed.
 
 Lemma start_one_eq sc stage m w tr :
   start_one sc stage m (w, tr) =
-  if stage <? c_stages (cfg sc m) then (fst (start_rec sc stage m w), tr ++ [snd (start_rec sc stage m w)]) else (w, tr).
+  if (stage <? c_stages (cfg sc m)) && active (w_mod w m)
+  then (fst (start_rec sc stage m w), tr ++ [snd (start_rec sc stage m w)]) else (w, tr).
 Proof.
-  unfold start_one, start_rec, start_cb. destruct (stage <? c_stages (cfg sc m)); [|reflexivity].
+  unfold start_one, start_rec, start_cb. destruct ((stage <? c_stages (cfg sc m)) && active (w_mod w m)); [|reflexivity].
   destruct (around sc 0 m _ w) as [w' l]. reflexivity.
 Qed.
 
@@ -84,13 +85,13 @@ Lemma start_one_gen sc stage m acc : Gen sc (fst acc) (snd acc) ->
   Gen sc (fst (start_one sc stage m acc)) (snd (start_one sc stage m acc)).
 Proof.
   destruct acc as [w tr]. cbn [fst snd]. intros H Hf. rewrite start_one_eq.
-  destruct (stage <? c_stages (cfg sc m)); cbn [fst snd]; [|exact H].
+  destruct ((stage <? c_stages (cfg sc m)) && active (w_mod w m)); cbn [fst snd]; [|exact H].
   eapply G1; [exact H|apply S_start, Hf].
 Qed.
 
 Lemma start_one_oth sc stage m acc i : i <> m -> w_mod (fst (start_one sc stage m acc)) i = w_mod (fst acc) i.
 Proof.
-  intros Hi. destruct acc as [w tr]. rewrite start_one_eq. destruct (stage <? c_stages (cfg sc m)); cbn [fst]; [|reflexivity].
+  intros Hi. destruct acc as [w tr]. rewrite start_one_eq. destruct ((stage <? c_stages (cfg sc m)) && active (w_mod w m)); cbn [fst]; [|reflexivity].
   unfold start_rec. cbn [fst]. apply around_oth; [apply start_cb_ok|exact Hi].
 Qed.
 
